@@ -18,6 +18,59 @@ def idx_bits(sym, level):
     return bv(16, sl(sym, lo, hi), (0, 16 - (hi - lo)))
 
 
+def index_census(chk, lim=None, audited=None, floor=4, what='index/offset'):
+    """PageTableIndex / PageOffset values are assembled only in new / new_truncate; any other assembling function is interpreted for all
+    inputs and must return in-range values (shared with every property whose inputs assume the invariant)"""
+    I = chk.I
+    from ..mirwalk import statements, is_user_fn
+    from ..values import map_value
+    if lim is None:
+        lim = {PT + 'PageTableIndex': 512, PT + 'PageOffset': 4096}
+        audited = {PT + 'PageTableIndex::new', PT + 'PageTableIndex::new_truncate', PT + 'PageOffset::new', PT + 'PageOffset::new_truncate'}
+    n = 0
+    for f in chk.facts['fns']:
+        if not is_user_fn(f):
+            continue
+        from ..mirwalk import ctor_refs
+        built = {s['rv']['adt'] for bi, s in statements(f) if s['k'] == 'assign' and s['rv']['k'] == 'agg' and s['rv'].get('adt') in lim} | set(ctor_refs(f, set(lim)))
+        for bi, s in statements(f):
+            if s['k'] == 'assign' and s['rv']['k'] == 'cast' and s['rv'].get('kind') == 'Transmute':
+                from ..mirwalk import ty_mentions
+                if ty_mentions(s['rv'].get('ty'), set(lim)):
+                    chk.ob('who-may-construct', 'transmute into an index/offset in %s' % f['name'], False, 'transmute to %s' % (s['rv'].get('ty'),), f['loc'])
+        if not built:
+            continue
+        n += 1
+        if f['name'] in audited:
+            chk.ob('who-may-construct', '%s assembles a %s (decided by the constructor rules)' % (f['name'].replace(PT, ''), '/'.join(sorted(b.split('::')[-1] for b in built))), True, '', f['loc'],
+                   nontrivial=False)
+            continue
+        # any other place: every value it returns must be shown in range, for all inputs of its parameter types
+        st = State()
+        args = [I.sym_value(f['locals'][i + 1], 'arg%d' % i, st) for i in range(f['argc'])]
+        outs = I.run(f['name'], args, st)
+        chk.count('function-instances')
+        bad = []
+        seen = [0]
+        for o in outs:
+            if o.kind != 'ret':
+                continue
+
+            def visit(v, o=o):
+                if isinstance(v, Struct) and v.name in lim and v.fields and isinstance(v.fields[0], BV):
+                    seen[0] += 1
+                    r = I.rng_of(o.st, v.fields[0])
+                    if r is None or max(b for _, b in r) >= lim[v.name]:
+                        bad.append('%s may be %s' % (v.name.split('::')[-1], r))
+                if isinstance(v, (Struct, Enum)):
+                    for x in v.fields:
+                        visit(x)
+            visit(o.val)
+        chk.ob('who-may-construct', '%s assembles an index/offset outside the constructors: every value it returns is in range' % f['name'].replace(PT, ''),
+               bool(outs) and seen[0] > 0 and not bad, '; '.join(sorted(set(bad))) or 'no returned index/offset value could be examined', f['loc'])
+    chk.floor('functions that assemble an %s' % what, n, floor)
+
+
 def run(chk):
     I = chk.I
     chk.trusted += ['spec/paging.py (4-level 9-9-9-9-12 layout from Intel SDM 3A 4.5)', 'x86abs bit-provenance transfer functions']
@@ -106,53 +159,7 @@ def run(chk):
     chk.guard('ctor', 'index/offset constructors', ctors)
 
     # ---- who may build an index / offset: "values never leave 0..512 / 0..4096" is an invariant of every place that assembles one
-    def census():
-        from ..mirwalk import statements, is_user_fn
-        from ..values import map_value
-        lim = {PT + 'PageTableIndex': 512, PT + 'PageOffset': 4096}
-        audited = {PT + 'PageTableIndex::new', PT + 'PageTableIndex::new_truncate', PT + 'PageOffset::new', PT + 'PageOffset::new_truncate'}
-        n = 0
-        for f in chk.facts['fns']:
-            if not is_user_fn(f):
-                continue
-            built = {s['rv']['adt'] for bi, s in statements(f) if s['k'] == 'assign' and s['rv']['k'] == 'agg' and s['rv'].get('adt') in lim}
-            for bi, s in statements(f):
-                if s['k'] == 'assign' and s['rv']['k'] == 'cast' and s['rv'].get('kind') == 'Transmute':
-                    from ..mirwalk import ty_mentions
-                    if ty_mentions(s['rv'].get('ty'), set(lim)):
-                        chk.ob('who-may-construct', 'transmute into an index/offset in %s' % f['name'], False, 'transmute to %s' % (s['rv'].get('ty'),), f['loc'])
-            if not built:
-                continue
-            n += 1
-            if f['name'] in audited:
-                chk.ob('who-may-construct', '%s assembles a %s (decided by the constructor rules)' % (f['name'].replace(PT, ''), '/'.join(sorted(b.split('::')[-1] for b in built))), True, '', f['loc'],
-                       nontrivial=False)
-                continue
-            # any other place: every value it returns must be shown in range, for all inputs of its parameter types
-            st = State()
-            args = [I.sym_value(f['locals'][i + 1], 'arg%d' % i, st) for i in range(f['argc'])]
-            outs = I.run(f['name'], args, st)
-            chk.count('function-instances')
-            bad = []
-            seen = [0]
-            for o in outs:
-                if o.kind != 'ret':
-                    continue
-
-                def visit(v, o=o):
-                    if isinstance(v, Struct) and v.name in lim and v.fields and isinstance(v.fields[0], BV):
-                        seen[0] += 1
-                        r = I.rng_of(o.st, v.fields[0])
-                        if r is None or max(b for _, b in r) >= lim[v.name]:
-                            bad.append('%s may be %s' % (v.name.split('::')[-1], r))
-                    if isinstance(v, (Struct, Enum)):
-                        for x in v.fields:
-                            visit(x)
-                visit(o.val)
-            chk.ob('who-may-construct', '%s assembles an index/offset outside the constructors: every value it returns is in range' % f['name'].replace(PT, ''),
-                   bool(outs) and seen[0] > 0 and not bad, '; '.join(sorted(set(bad))) or 'no returned index/offset value could be examined', f['loc'])
-        chk.floor('functions that assemble an index or offset', n, 4)
-    chk.guard('who-may-construct', 'index/offset census', census)
+    chk.guard('who-may-construct', 'index/offset census', lambda: index_census(chk))
 
     # ---- level helpers
     def levels():
